@@ -63,6 +63,9 @@ class Lexer(object):
 
     @TOKEN(r'("(\\.|[^"\\])*")|(\'(\\.|[^\'\\])*\')')
     def t_STRING(self, t):
+        # A quoted string may span lines: the line breaks inside it count like any others ("\r\n" is a single one)
+        t.lexer.lineno += t.value.count("\n") + t.value.count("\r") - t.value.count("\r\n")
+
         # Remove the enclosing quotes (only those) and interpret escapes without mangling non-ASCII characters
         try:
             t.value = t.value[1:-1].encode("latin-1", "backslashreplace").decode("unicode_escape")
